@@ -367,3 +367,21 @@ mod tests {
         }
     }
 }
+
+/// Forwarders for the external verification harnesses (see `crate::verif_hooks`). One call each, no logic.
+#[cfg(any(kani, mmtk_verif))]
+pub mod verif_hooks_block_list {
+    pub use super::{BlockList, BlockLists};
+    pub const MAX_BIN: usize = super::MAX_BIN;
+    pub const MAX_BIN_SIZE: usize = super::MAX_BIN_SIZE;
+    pub const MI_LARGE_OBJ_SIZE_MAX: usize = super::MI_LARGE_OBJ_SIZE_MAX;
+    pub fn mi_wsize_from_size(size: usize) -> usize {
+        super::mi_wsize_from_size(size)
+    }
+    pub fn mi_bin_from_size(size: usize) -> usize {
+        super::mi_bin_from_size(size)
+    }
+    pub fn new_empty_block_lists() -> BlockLists {
+        super::new_empty_block_lists()
+    }
+}
